@@ -1,0 +1,79 @@
+//go:build verif
+
+package int160
+
+// Machine-checked contracts for this package, read by the govc verifier under /verif. This file is
+// comment-only and excluded from every build that does not set the "verif" tag.
+//
+// A [20]byte is read as a big-endian unsigned 160-bit integer: ult/== on .bits are comparisons of
+// those integers; bitat(x, i) is bit i counted from the most significant bit.
+
+//@ func (dht/int160.T).Cmp
+//@   ensures range: result == -1 || result == 0 || result == 1
+//@   ensures less: (result == -1) == ult(l.bits, r.bits)
+//@   ensures equal: (result == 0) == (l.bits == r.bits)
+//@   loop 1
+//@     invariant bounds: 0 <= i && i <= 20
+//@     invariant prefix-equal: forall k int :: 0 <= k && k < 20 && k < i ==> l.bits[k] == r.bits[k]
+
+//@ func (*dht/int160.T).Xor
+//@   requires nonnil: me != nil && a != nil && b != nil
+//@   modifies me.bits
+//@   ensures xor: me.bits == old(a.bits) ^ old(b.bits)
+//@   loop 1
+//@     modifies me.bits
+//@     invariant bounds: 0 <= i && i <= 20
+//@     invariant done: forall k int :: 0 <= k && k < 20 && k < i ==> me.bits[k] == old(a.bits[k]) ^ old(b.bits[k])
+//@     invariant rest: forall k int :: 0 <= k && k < 20 && k >= i ==> me.bits[k] == old(me.bits[k])
+
+//@ func (*dht/int160.T).GetBit
+//@   requires nonnil: me != nil
+//@   requires index-range: 0 <= index && index < 160
+//@   ensures msb-first: result == bitat(me.bits, index)
+
+//@ func (*dht/int160.T).SetBit
+//@   requires nonnil: me != nil
+//@   requires index-range: 0 <= index && index < 160
+//@   modifies me.bits
+//@   ensures only-that-bit: me.bits == withbit(old(me.bits), index, val)
+
+//@ func (*dht/int160.T).IsZero
+//@   requires nonnil: me != nil
+//@   ensures zero: result == (me.bits == 0)
+//@   loop 1
+//@     invariant bounds: 0 <= $iter && $iter <= 20
+//@     invariant prefix-zero: forall k int :: 0 <= k && k < 20 && k < $iter ==> me.bits[k] == 0
+
+//@ func (*dht/int160.T).SetMax
+//@   requires nonnil: me != nil
+//@   modifies me.bits
+//@   ensures max: me.bits == ^(old(me.bits) ^ old(me.bits))
+//@   loop 1
+//@     modifies me.bits
+//@     invariant bounds: 0 <= i && i <= 20
+//@     invariant done: forall k int :: 0 <= k && k < 20 && k < i ==> me.bits[k] == 255
+
+//@ func (*dht/int160.T).SetBytes
+//@   requires nonnil: me != nil
+//@   requires length: len(b) == 20
+//@   modifies me.bits
+//@   ensures copied: forall k int :: 0 <= k && k < 20 ==> me.bits[k] == old(b[k])
+
+//@ func (*dht/int160.T).AsByteArray
+//@   requires nonnil: me != nil
+//@   ensures same: result == me.bits
+
+//@ func dht/int160.FromByteArray
+//@   ensures same: ret.bits == b
+
+//@ func dht/int160.Distance
+//@   ensures xor: ret.bits == a.bits ^ b.bits
+
+//@ func (dht/int160.T).Distance
+//@   ensures xor: ret.bits == a.bits ^ b.bits
+
+// math/big is not verified: the bit length of the big-endian integer is assumed.
+//@ func (*dht/int160.T).BitLen
+//@   trusted
+//@   requires nonnil: me != nil
+//@   ensures bitlen: result == bitlen(me.bits)
